@@ -66,6 +66,14 @@ def run(chk):
     prog = chk.program
     chk.facts.update({k: v for k, v in libfacts.cross_read().items() if "yaml" in k})
     # ---- O18.1 loader ancestry -------------------------------------------------------------
+    global LOADER
+    LOADER = "cobald.daemon.core.config:COBalDLoader"
+    cfg_mod = prog.modules.get("cobald.daemon.core.config")
+    if cfg_mod is not None and LOADER not in prog.classes:
+        # the class may be defined in another module of the package and imported into core.config
+        r = prog.resolve(cfg_mod, "COBalDLoader")
+        if r in prog.classes:
+            LOADER = r
     try:
         cls = prog.cls(LOADER)
     except Exception:
@@ -83,7 +91,10 @@ def run(chk):
         else:
             # the class body must not register constructors itself
             extra = [n for n in cls.node.body if not isinstance(n, (ast.Expr, ast.Pass))]
-            if extra:
+            tables = [n for n in extra if isinstance(n, (ast.Assign, ast.AnnAssign)) and any(isinstance(t, ast.Name) and t.id in ("yaml_constructors", "yaml_multi_constructors", "yaml_implicit_resolvers", "yaml_path_resolvers") for t in (n.targets if isinstance(n, ast.Assign) else [n.target]))]
+            if tables:
+                chk.bad("O18.1", cls.qual, "the loader class replaces the constructor table it inherits from SafeLoader (%s): the inherited catch-all entry None -> construct_undefined, which rejects every unregistered and every python/* tag, is gone unless it is copied, so such tags are accepted as plain data" % util.unparse(tables[0]).split("=")[0].strip(), node=tables[0], stmt="loader-own-table")
+            elif extra:
                 chk.undecided("O18.1", cls.qual, "the loader class has a non-trivial body", node=extra[0])
             else:
                 chk.ok("O18.1", cls.qual, "derives from %s only" % ", ".join(s[4:] for s in safe), node=cls.node)
